@@ -53,6 +53,7 @@ class Event:
     dirty: bool = False
     pre: dict | None = None  # snapshot of relevant facts before the event
     origin: FuncInfo | None = None
+    _site0: tuple | None = None
 
     def where(self) -> str:
         f = self.origin
@@ -323,6 +324,7 @@ class Interp(Hooks):
         self.solution_tracks = self.env.get("tracks", "").endswith("SolutionTracks")
         self._live: dict[int, dict[int, set[str]]] = {}
         self.inlined_functions: set[str] = set()
+        self.site0 = None
         self.opaque_calls: dict[str, int] = {}
 
     # ------------------------------------------------------------------ roles
@@ -379,6 +381,7 @@ class Interp(Hooks):
     def emit_event(self, st: PState, kind, name, args, node, pre=None) -> Event:
         d: AState = st.data
         ev = Event(kind, name, args, node, self.depth, self.ctx(), d.dirty, pre, self.origin(node))
+        ev._site0 = self.site0
         d.events.append(ev)
         return ev
 
@@ -1100,8 +1103,10 @@ class Engine(CondMixin, Interp):
 
     def on_cond(self, st: PState, expr: ast.expr, outcome: bool):
         d: AState = st.data
-        self.emit_event(st, "cond", norm(expr), {"outcome": outcome, "term": self._subst(expr, d)}, expr)
-        self.scan_queries(st, expr)
+        term = self._subst(expr, d)
+        for c in calls_in(expr):
+            self.call_effect(st, c)
+        self.emit_event(st, "cond", norm(expr), {"outcome": outcome, "term": term}, expr)
         self.learn(expr, outcome, d)
         return True
 
@@ -1383,11 +1388,15 @@ class Engine(CondMixin, Interp):
         for p, t in bound.items():
             d.vars[prefix + p] = t
         self.inlined_functions.add(callee.qname)
+        if not self.stack:
+            self.site0 = (getattr(call, "lineno", 0), getattr(call, "col_offset", 0))
         self.stack.append((callee, prefix))
         try:
             raw = list(self.walker.block(body, st))
         finally:
             self.stack.pop()
+            if not self.stack:
+                self.site0 = None
         outs = []
         tmp = f"_r{k}"
         for st2, kind, node in raw:
